@@ -144,6 +144,22 @@ package document
 //@ ensures err == nil ==> rowPropsOwn(result0)
 //@ ensures err == nil ==> cellParasOwn(result0)
 //@ ensures err == nil ==> paraRunsOwn(result0)
+// The OUTER table keeps its ownership invariants (so the induction over the editors' contracts goes through AddNestedTable):
+// the call writes the cell's nested-table list and the table header it appends to it, nothing else - the receiver's header,
+// every row's cell array and properties, every cell's paragraph array and properties, every paragraph's run array stay.
+// Stated for every receiver that is not itself an element of the very array the call appends to (a table sitting in the
+// spare capacity of its own cell's nested-table list: no table the API builds, opens or copies is - those are separate
+// objects or elements of ANOTHER cell's list); no precondition is imposed. The preservation clauses carry the frame
+// facts as hypotheses (each is a postcondition of its own) so that every step is a plain instantiation.
+//@ ensures err == nil && !old(isElem(t) && arrOf(t) == arr(t.Rows[row].Cells[col].Tables)) ==> len(t.Rows) == old(len(t.Rows)) && t.Rows == old(t.Rows) && t.Grid == old(t.Grid) && t.Properties == old(t.Properties)
+//@ ensures err == nil && !old(isElem(t) && arrOf(t) == arr(t.Rows[row].Cells[col].Tables)) ==> (forall r int :: 0 <= r && r < len(t.Rows) ==> t.Rows[r].Cells == old(t.Rows[r].Cells) && t.Rows[r].Properties == old(t.Rows[r].Properties))
+//@ ensures err == nil && !old(isElem(t) && arrOf(t) == arr(t.Rows[row].Cells[col].Tables)) ==> (forall r int, c int :: 0 <= r && r < len(t.Rows) && 0 <= c && c < len(t.Rows[r].Cells) ==> t.Rows[r].Cells[c].Paragraphs == old(t.Rows[r].Cells[c].Paragraphs) && t.Rows[r].Cells[c].Properties == old(t.Rows[r].Cells[c].Properties))
+//@ ensures err == nil && !old(isElem(t) && arrOf(t) == arr(t.Rows[row].Cells[col].Tables)) ==> (forall r int, c int, k int :: 0 <= r && r < len(t.Rows) && 0 <= c && c < len(t.Rows[r].Cells) && 0 <= k && k < len(t.Rows[r].Cells[c].Paragraphs) ==> t.Rows[r].Cells[c].Paragraphs[k].Runs == old(t.Rows[r].Cells[c].Paragraphs[k].Runs))
+//@ ensures err == nil && old(rowsOwn(t)) && t.Rows == old(t.Rows) && (forall r int :: 0 <= r && r < len(t.Rows) ==> t.Rows[r].Cells == old(t.Rows[r].Cells) && t.Rows[r].Properties == old(t.Rows[r].Properties)) ==> rowsOwn(t)
+//@ ensures err == nil && old(rowPropsOwn(t)) && t.Rows == old(t.Rows) && (forall r int :: 0 <= r && r < len(t.Rows) ==> t.Rows[r].Cells == old(t.Rows[r].Cells) && t.Rows[r].Properties == old(t.Rows[r].Properties)) ==> rowPropsOwn(t)
+//@ ensures err == nil && old(cellPropsOwn(t)) && t.Rows == old(t.Rows) && (forall r int :: 0 <= r && r < len(t.Rows) ==> t.Rows[r].Cells == old(t.Rows[r].Cells) && t.Rows[r].Properties == old(t.Rows[r].Properties)) && (forall r int, c int :: 0 <= r && r < len(t.Rows) && 0 <= c && c < len(t.Rows[r].Cells) ==> t.Rows[r].Cells[c].Paragraphs == old(t.Rows[r].Cells[c].Paragraphs) && t.Rows[r].Cells[c].Properties == old(t.Rows[r].Cells[c].Properties)) ==> cellPropsOwn(t)
+//@ ensures err == nil && old(cellParasOwn(t)) && t.Rows == old(t.Rows) && (forall r int :: 0 <= r && r < len(t.Rows) ==> t.Rows[r].Cells == old(t.Rows[r].Cells) && t.Rows[r].Properties == old(t.Rows[r].Properties)) && (forall r int, c int :: 0 <= r && r < len(t.Rows) && 0 <= c && c < len(t.Rows[r].Cells) ==> t.Rows[r].Cells[c].Paragraphs == old(t.Rows[r].Cells[c].Paragraphs) && t.Rows[r].Cells[c].Properties == old(t.Rows[r].Cells[c].Properties)) ==> cellParasOwn(t)
+//@ ensures err == nil && old(paraRunsOwn(t)) && t.Rows == old(t.Rows) && (forall r int :: 0 <= r && r < len(t.Rows) ==> t.Rows[r].Cells == old(t.Rows[r].Cells) && t.Rows[r].Properties == old(t.Rows[r].Properties)) && (forall r int, c int :: 0 <= r && r < len(t.Rows) && 0 <= c && c < len(t.Rows[r].Cells) ==> t.Rows[r].Cells[c].Paragraphs == old(t.Rows[r].Cells[c].Paragraphs) && t.Rows[r].Cells[c].Properties == old(t.Rows[r].Cells[c].Properties)) && (forall r int, c int, k int :: 0 <= r && r < len(t.Rows) && 0 <= c && c < len(t.Rows[r].Cells) && 0 <= k && k < len(t.Rows[r].Cells[c].Paragraphs) ==> t.Rows[r].Cells[c].Paragraphs[k].Runs == old(t.Rows[r].Cells[c].Paragraphs[k].Runs)) ==> paraRunsOwn(t)
 //@ loop 1
 //@   invariant 0 <= #i && #i <= len(colWidths) && unchangedHeap()
 //@   invariant len(colWidths) == config.Cols && arr(colWidths) >= old(allocBound())
